@@ -103,7 +103,8 @@ def flat(x):
 
 class Probe(Stream):
     """recording consumer; mode: 'sync' (returns []), 'future' (tornado Future resolved by the driver),
-    'coro' (native coroutine awaiting such a future)"""
+    'coro' (native coroutine awaiting such a future), 'asyncdef' (a native coroutine whose body *is* the consumer: the
+    delivery is recorded when the body starts to run)"""
 
     def __init__(self, upstream, log, mode="sync", pid=1, **kw):
         self.log = log
@@ -112,6 +113,17 @@ class Probe(Stream):
         Stream.__init__(self, upstream, **kw)
 
     def update(self, x, who=None, metadata=None):
+        if self.mode == "asyncdef":
+            # an ``async def`` consumer: nothing of it runs until somebody awaits (or schedules) the coroutine object -- the element
+            # counts as delivered when the body starts
+            return self._body(x, who, metadata)
+        return self._update(x, who, metadata)
+
+    async def _body(self, x, who, metadata):
+        fut = self._update(x, who, metadata, want="future")
+        await fut
+
+    def _update(self, x, who=None, metadata=None, want=None):
         log = self.log
         log.nd += 1
         d = log.nd
@@ -131,7 +143,7 @@ class Probe(Stream):
             return []
         fut = Future()
         log.pending[d] = (fut, self.pid)
-        if self.mode == "future":
+        if self.mode == "future" or want == "future":
             return fut
         async def consume():
             await fut
